@@ -100,7 +100,9 @@ CheckCase(i) ==
          ELSE IF c.pq # same THEN "eq"
          ELSE IF c.qp # same THEN "eq-symmetry" ELSE ""
     [] c.fam = "op" ->
-         IF c.outp # c.oute THEN "op-raise"
+         \* cases whose expansion was computed by the driver carry it: it must be MLCore's Expand (else: machinery error)
+         IF c.haspe /\ Expand(c.p) # c.pe THEN "bad-expansion"
+         ELSE IF c.outp # c.oute THEN "op-raise"
          ELSE IF c.outp = "ok" /\ ExpandVal(c.rp) # ExpandVal(c.re) THEN "op" ELSE ""
     [] c.fam = "match" -> CheckMatch(c)
     [] c.fam = "roundtrip" ->
